@@ -88,15 +88,16 @@ func runC18(c *Ctx) {
 	}
 	c.Bound("workloads", fmt.Sprintf("%d workloads (QoS 1 publish, QoS 2 publish (either phase), subscribe, unsubscribe; alone, before Connect, followed by a second publish); ResponseTimeout %v, reconnect wait 1 s; faults %+v (answer withheld, link stays up) on first transmissions and retransmissions, F<=%d; T<=1", len(wls), c18Timeout, faults, f))
 	var sample *rcRun
-	for _, reqs := range wls {
+	for wi, reqs := range append(wls, wls[0], wls[9]) {
 		reqs := reqs
+		late := wi >= len(wls) // ResponseTimeout is assigned to the RetryClient only after Connect returned
 		var r *rcRun
 		sc := &vrt.Scenario{
-			Name:  fmt.Sprintf("C18/F%d/%s", f, rcName(reqs)),
+			Name:  fmt.Sprintf("C18/F%d/late-config=%v/%s", f, late, rcName(reqs)),
 			Bound: vrt.Budget{F: f, T: 1},
 			Cfg:   vrt.Config{Horizon: int64(120 * time.Second), EarlyTimers: true},
 			Body: func() {
-				rcExecuteInto(&rcCfg{Reqs: reqs, Faults: faults, KeepSession: true, RespTimeout: c18Timeout}, &r)
+				rcExecuteInto(&rcCfg{Reqs: reqs, Faults: faults, KeepSession: true, RespTimeout: c18Timeout, RespTimeoutLate: late}, &r)
 				c18Oracle(r)
 			},
 			Observe: func() uint64 { return r.net.TraceHash() },
